@@ -44,6 +44,10 @@ def run(ctx):
     from rules import c02
     ctx.run_rule("R7-oversize-gate", c02.r7_oversize, F)            # the only pre-dispatch refusal is on the request's length: a forget is never dropped for lack of reply space
     ctx.run_rule("R1-entry-pairing", c08.r1_entry_pairing, F)     # a reference the client never received is given back, on that inode
+    ctx.floor('R1-cas-loop', 7)
+    ctx.floor('R2-insert-under-guard', 6)
+    ctx.floor("R3-forget-shape", 10)
+    ctx.floor('R1-entry-pairing', 14)
     ctx.assumptions += ["linearizability over all interleavings is not decided (needs schedule exploration, a different technique family)"]
 
 
